@@ -346,7 +346,8 @@ def shards(tier):
             {"space": "syntaxchars"}]
     from mc.checks import c02
     out += [{"space": "nested", "i": i} for i in range(len(NESTED_ATOMS) + len(c02.U_ALL))]
-    out += [{"space": "logical_args", "n": n} for n in (1, 2, 3)]
+    out += [{"space": "logical_args", "n": n, "part": k, "of": 16 if n == 3 else 1}
+            for n in (1, 2, 3) for k in range(16 if n == 3 else 1)]
     cp = cps(tier)
     step = 2048
     out += [{"space": "names", "lo": lo, "hi": min(lo + step, len(cp)), "tier": tier} for lo in range(0, len(cp), step)]
@@ -413,7 +414,9 @@ def run_shard(desc):
     elif sp == "logical_args":
         # Boolean expressions as the argument of a LogicalType parameter (printed by the
         # expression classes' own __str__, not by the filter's canonical printer)
-        for e in bool_exprs(desc["n"]):
+        for idx, e in enumerate(bool_exprs(desc["n"])):
+            if idx % desc.get("of", 1) != desc.get("part", 0):
+                continue
             for q in (f"$[?fl_l({e})]", f"$[?!fl_l({e}) || @.d]", f"$[?fl_l(fl_l({e}) && @.d)]"):
                 sh.states += 1
                 sh.transitions += 3
